@@ -3,6 +3,7 @@ package main
 import (
 	"go/constant"
 	"go/token"
+	"go/types"
 	"sort"
 	"strings"
 
@@ -110,6 +111,31 @@ func c19SourceOrder(c *Ctx) {
 					// test code and single-source callers are not the documented chain
 					if maxLen <= 1 && strings.HasSuffix(pk.PkgPath, "_test") {
 						continue
+					}
+					// a client made for an explicitly given token (a string parameter) has that token as its only
+					// source: "attached only if it was configured for that request's registry host" - a host-keyed
+					// token says nothing for other hosts, and nothing else was configured for this client
+					explicit, others := 0, 0
+					for _, els := range seqs {
+						for _, e := range els {
+							fromParam := false
+							sliceBack(e, func(x ssa.Value) bool {
+								if prm, isParam := x.(*ssa.Parameter); isParam && prm.Parent() == f {
+									if bt, isBasic := prm.Type().Underlying().(*types.Basic); isBasic && bt.Kind() == types.String {
+										fromParam = true
+									}
+								}
+								return !fromParam
+							})
+							if fromParam {
+								explicit++
+							} else {
+								others++
+							}
+						}
+					}
+					if explicit > 0 {
+						c.Ob(rule, ssaFuncName(f)+"/explicit-token-only", call.Pos(), others == 0, true, "a client built for a token passed in as a string consults that token only: %d other source(s) in its provider list", others)
 					}
 					n++
 					c.Ob(rule, ssaFuncName(f), call.Pos(), ok, true, "providers handed to the authorization interceptor, in order, for every way the list can be built: %v (a list whose construction cannot be read fails)", shown)
